@@ -398,6 +398,55 @@ def q_url(scheme):
     cover("url")
 
 
+def q_redirect(scheme2, port2, path2):
+    """the request sent after a redirect reflects the LOCATION url (target, Host, Origin), not the original one"""
+    quiet_logging()
+    import simnet
+    import websocket
+    import websocket._handshake as HS
+    HS.CookieJar.jar.clear()
+    loc = "%s://b.example%s%s" % (scheme2, port2, path2)
+    n = [0]
+
+    def respond(server, head, key):
+        n[0] += 1
+        if n[0] == 1:
+            return ("HTTP/1.1 302 Found\r\nLocation: %s\r\n\r\n" % loc).encode()
+        return ("HTTP/1.1 101 Switching Protocols\r\nUpgrade: websocket\r\nConnection: Upgrade\r\nSec-WebSocket-Accept: %s\r\n\r\n"
+                % simnet.accept_for(key)).encode()
+
+    k = simnet.Kernel(step_budget=3000)
+    net = simnet.Net(k, [{"respond": respond}], tls=True)
+    simnet.install(k, net, tls=True)
+    try:
+        try:
+            ws = websocket.create_connection("ws://a.example:8080/old?x=1", timeout=5)
+            ws.shutdown()
+        except (sx.Control, sx.ConcreteFailure, sx.ReplayMismatch):
+            raise
+        except Exception as e:
+            sx.require(False, "redirected connect failed: %s" % type(e).__name__, loc=loc)
+            return
+    finally:
+        k.shutdown()
+        simnet.uninstall()
+    sx.require(len(net.requests) == 2, "one request per connection", got=len(net.requests))
+    l1 = net.requests[0][2].split("\r\n")
+    l2 = net.requests[1][2].split("\r\n")
+    sx.require(l1[0] == "GET /old?x=1 HTTP/1.1" and "Host: a.example:8080" in l1, "first request addresses the original URL")
+    tpath = path2 if path2 else "/"
+    pnum = int(port2[1:]) if port2 else (443 if scheme2 == "wss" else 80)
+    hostport = "b.example" if pnum in (80, 443) else "b.example:%d" % pnum
+    sx.require(l2[0] == "GET " + tpath + " HTTP/1.1", "request target after a redirect is the Location's path and query", loc=loc, got=l2[0])
+    sx.require("Host: " + hostport in l2, "Host after a redirect names the Location's host and port", loc=loc, got=str([l for l in l2 if l.startswith("Host")]))
+    sx.require("Origin: " + ("https" if scheme2 == "wss" else "http") + "://" + hostport in l2, "default Origin after a redirect", loc=loc)
+    k1 = [l for l in l1 if l.startswith("Sec-WebSocket-Key: ")]
+    k2 = [l for l in l2 if l.startswith("Sec-WebSocket-Key: ")]
+    sx.require(len(k1) == 1 and len(k2) == 1 and k1 != k2, "the redirected request carries a fresh key")
+    sx.require(net.resolved[-1][:2] == ("b.example", pnum), "the redirect target is what is dialled")
+    cover("redirect")
+
+
 def obligations(tier):
     thorough = tier == "thorough"
     hdr = []
@@ -421,6 +470,9 @@ def obligations(tier):
         Obligation("Q-reuse", q_reuse, [dict(header_kind=k) for k in ("list", "dict", "none")],
                    bounds="three successive requests from the same option objects (header list / dict / none, subprotocol list, cookie, jar cookie); host, "
                           "cookie and header value symbolic", must_cover=["reuse"], kernel=["_handshake._get_handshake_headers"]),
+        Obligation("Q-redirect", q_redirect, [dict(scheme2=s, port2=p, path2=pa) for s in ("ws", "wss") for p in ("", ":9090") for pa in ("", "/new?y=2", "/")],
+                   bounds="302 redirect from ws://a.example:8080/old?x=1 to {ws,wss}://b.example[:9090]{'', '/', '/new?y=2'}", must_cover=["redirect"],
+                   step_budget=100000, kernel=["WebSocket.connect (redirect loop)", "_handshake.handshake", "_get_handshake_headers"]),
         Obligation("Q-key", q_key, [{}], bounds="all 2^128 values of the 16 random bytes (symbolic), two successive requests", must_cover=["key"],
                    solver_timeout_ms=120000, kernel=["_create_sec_websocket_key", "_get_handshake_headers"]),
         Obligation("Q-wire", q_wire, [dict(scheme=s, port=p, with_opts=w) for s in ("ws", "wss") for p in (80, 443, 8443) for w in (False, True)],
